@@ -73,57 +73,7 @@ func (E *Engine) solveAll(cfg runCfg) []*OblResult {
 	// instances of one obligation on many paths are first tried together: one query asserting the hypotheses common to all of them and the
 	// disjunction of (path-specific hypotheses and negated goal); unsat there discharges every instance. Anything else falls back to one
 	// query per instance, which is what names the failing path.
-	solveOne := func(j *job) {}
-	batched := map[*job]bool{}
-	if os.Getenv("GVC_NOBATCH") == "" && os.Getenv("GVC_DUMPALL") == "" {
-		groups := map[string][]*job{}
-		var order []string
-		for _, j := range jobs {
-			if _, ok := groups[j.o.Name]; !ok {
-				order = append(order, j.o.Name)
-			}
-			groups[j.o.Name] = append(groups[j.o.Name], j)
-		}
-		for _, name := range order {
-			g := groups[name]
-			if len(g) < 6 || E.knownFailing(name) {
-				continue
-			}
-			for i := 0; i < len(g); i += 12 {
-				chunk := g[i:min(i+12, len(g))]
-				if len(chunk) < 2 {
-					continue
-				}
-				for _, j := range chunk {
-					batched[j] = true
-				}
-				wg.Add(1)
-				sem <- struct{}{}
-				go func(chunk []*job) {
-					defer wg.Done()
-					defer func() { <-sem }()
-					obls := make([]*Obligation, len(chunk))
-					ext := false
-					for i, j := range chunk {
-						obls[i] = j.o
-						ext = ext || j.o.Z3Ext
-					}
-					q := E.buildBatchQuery(chunk[0].o.Reading, obls)
-					r := Solve(q, cfg.TimeoutS, cfg.Seed, ext || strings.Contains(q, "(_ map "), false)
-					if r.Status == "unsat" {
-						for _, j := range chunk {
-							j.res = SolveResult{Status: "unsat", Solver: r.Solver, Ms: r.Ms / int64(len(chunk))}
-						}
-						return
-					}
-					for _, j := range chunk {
-						solveOne(j)
-					}
-				}(chunk)
-			}
-		}
-	}
-	solveOne = func(j *job) {
+	solveOne := func(j *job) {
 			fmu.Lock()
 			skip := failedNames[j.o.Name]
 			fmu.Unlock()
@@ -191,6 +141,55 @@ func (E *Engine) solveAll(cfg runCfg) []*OblResult {
 					j.res.Model = "; candidate model (quantified hypotheses dropped)\n" + rm.Model
 				}
 			}
+	}
+	batched := map[*job]bool{}
+	if os.Getenv("GVC_NOBATCH") == "" && os.Getenv("GVC_DUMPALL") == "" {
+		groups := map[string][]*job{}
+		var order []string
+		for _, j := range jobs {
+			if _, ok := groups[j.o.Name]; !ok {
+				order = append(order, j.o.Name)
+			}
+			groups[j.o.Name] = append(groups[j.o.Name], j)
+		}
+		for _, name := range order {
+			g := groups[name]
+			if len(g) < 6 || E.knownFailing(name) {
+				continue
+			}
+			for i := 0; i < len(g); i += 12 {
+				chunk := g[i:min(i+12, len(g))]
+				if len(chunk) < 2 {
+					continue
+				}
+				for _, j := range chunk {
+					batched[j] = true
+				}
+				wg.Add(1)
+				sem <- struct{}{}
+				go func(chunk []*job) {
+					defer wg.Done()
+					defer func() { <-sem }()
+					obls := make([]*Obligation, len(chunk))
+					ext := false
+					for i, j := range chunk {
+						obls[i] = j.o
+						ext = ext || j.o.Z3Ext
+					}
+					q := E.buildBatchQuery(chunk[0].o.Reading, obls)
+					r := Solve(q, cfg.TimeoutS, cfg.Seed, ext || strings.Contains(q, "(_ map "), false)
+					if r.Status == "unsat" {
+						for _, j := range chunk {
+							j.res = SolveResult{Status: "unsat", Solver: r.Solver, Ms: r.Ms / int64(len(chunk))}
+						}
+						return
+					}
+					for _, j := range chunk {
+						solveOne(j)
+					}
+				}(chunk)
+			}
+		}
 	}
 	for _, j := range jobs {
 		if batched[j] {
